@@ -1,6 +1,7 @@
 import NiftyVerif.Model.Pytree
 import Mathlib.Algebra.BigOperators.Group.List.Basic
 import Mathlib.Tactic.Ring
+import Mathlib.Algebra.Group.Defs
 import Mathlib.Tactic.Linarith
 import Mathlib.Analysis.Real.Sqrt
 import Mathlib.Algebra.Order.BigOperators.Group.List
@@ -361,5 +362,67 @@ theorem whereOp_flat (c : PTree Bool) (x y : PTree α) (r : PTree α)
 
 
 end whereflat
+
+section gint
+
+theorem GInt.add_def (a b : GInt) : a + b = ⟨a.re + b.re, a.im + b.im⟩ := rfl
+theorem GInt.zero_def : (0 : GInt) = ⟨0, 0⟩ := rfl
+
+/-- Gaussian integers form a commutative additive monoid: `sum_flat` / `vdot_flat` apply to complex leaves as run by the driver -/
+instance : AddCommMonoid GInt where
+  add := (· + ·)
+  zero := 0
+  add_assoc a b c := by
+    cases a; cases b; cases c
+    simp only [GInt.add_def, GInt.mk.injEq]; omega
+  zero_add a := by
+    cases a
+    simp only [GInt.add_def, GInt.zero_def, GInt.mk.injEq]; omega
+  add_zero a := by
+    cases a
+    simp only [GInt.add_def, GInt.zero_def, GInt.mk.injEq]; omega
+  add_comm a b := by
+    cases a; cases b
+    simp only [GInt.add_def, GInt.mk.injEq]; omega
+  nsmul := nsmulRec
+
+
+end gint
+
+section forest
+variable {α : Type} [Add α]
+
+/-- entry-wise sum of the flat arrays of a forest -/
+def sumFlats : List α → List (List α) → List α
+  | acc, [] => acc
+  | acc, l :: ls => sumFlats (List.zipWith (· + ·) acc l) ls
+
+theorem sumTrees_flat (acc : PTree α) (ts : List (PTree α)) (r : PTree α) (h : sumTrees acc ts = some r) :
+    r.flatten = sumFlats acc.flatten (ts.map PTree.flatten) := by
+  induction ts generalizing acc with
+  | nil => simp [sumTrees] at h; subst h; rfl
+  | cons t ts ih =>
+    simp only [sumTrees] at h
+    cases hm : map₂ (· + ·) acc t with
+    | none => simp [hm] at h
+    | some q =>
+      simp only [hm] at h
+      rw [ih q h, (flatten_map₂ _ acc t q hm).2]
+      rfl
+
+/-- **mean_flat**: `mean(forest)` is `1/n` times the entry-wise sum of the concatenated flat arrays of its members -/
+theorem mean_flat [Mul α] (inv : α) (t : PTree α) (ts : List (PTree α)) (r : PTree α)
+    (h : meanTrees inv (t :: ts) = some r) :
+    r.flatten = (sumFlats t.flatten (ts.map PTree.flatten)).map fun x => inv * x := by
+  simp only [meanTrees] at h
+  cases hs : sumTrees t ts with
+  | none => simp [hs] at h
+  | some q =>
+    simp [hs] at h
+    subst h
+    rw [flatten_map, sumTrees_flat t ts q hs]
+
+
+end forest
 
 end NiftyVerif.Pytree
